@@ -18,7 +18,11 @@ PFX = {2: 'Line', 3: 'Quad', 4: 'Cubic'}
 
 
 def gen_seg(rng):
-    fam = rng.choice(['int', 'float', 'grid', 'collinear', 'arch', 'elevated', 'sliver', 'double', 'quad-linear', 'origin'])
+    fam = rng.choice(['int', 'float', 'grid', 'collinear', 'arch', 'elevated', 'sliver', 'double', 'quad-linear', 'origin', 'elevated-scaled', 'cubic-scaled'])
+    if fam in ('elevated-scaled', 'cubic-scaled'):
+        # the same shapes at other magnitudes: relative tests must not turn into absolute ones (coordinates 1e-10 .. 1e8)
+        sc = 10.0 ** rng.choice([-10, -8, -5, 3, 4, 5, 7, 8]); rr = lambda: P(rng.uniform(-3, 3) * sc, rng.uniform(-3, 3) * sc)
+        return fam, (QuadraticBezier(rr(), rr(), rr()).toCubicBezier() if fam == 'elevated-scaled' else CubicBezier(rr(), rr(), rr(), rr()))
     if fam == 'origin':
         # the running box gets a corner exactly at (0,0): the start point is the origin and the curve goes into one quadrant
         sx, sy = rng.choice([-1, 1]), rng.choice([-1, 1])
@@ -145,6 +149,16 @@ def search(ctx):
         f = check_path(segs)
         dist['path'] = dist.get('path', 0) + 1
         if f: fails.append({'class': 'C02-path', 'what': f[0], 'input': {'path': [gen.seg_json(s) for s in segs]}, 'observed': f, 'expected': 'join of the segment boxes'})
+    # path-level stale state: asking must not change later answers, and an in-place edit of a segment through the path's own
+    # segment list (or of its Point objects) must be seen by the next query
+    import gen as _gq
+    from beziers.point import Point as _PQ
+    for _ in range(ctx.n(25, 500)):
+        _segs = _gq.closed_contour(rng, ints=rng.random() < 0.3)
+        _qp = _PQ(_segs[0][0].x + rng.uniform(-150, 150), _segs[0][0].y + rng.uniform(-150, 150))
+        _ff = _gq.path_freshness(rng, _segs, {'bounds': lambda p: p.bounds()}, closed=True, disturb=[lambda p: p.pointIsInside(_qp), lambda p: p.bounds(), lambda p: p.length, lambda p: p.area])
+        n += 1; dist['stale-state/path'] = dist.get('stale-state/path', 0) + 1
+        if _ff: fails.append({'class': 'C02-stale-state', 'what': _ff[0], 'input': None, 'observed': _ff[:3], 'expected': 'the answers of a freshly built path with the same control points'})
     return {'evaluations': n, 'distinct_nontrivial': len(seen), 'failures': fails, 'distribution': dist, 'samples': samples}
 
 
